@@ -119,7 +119,10 @@ def tlc(cwd, module, cfg, workers=1, timeout=900, extra=(), java_opts=None, heap
     jo = java_opts or "-XX:+UseParallelGC -XX:ParallelGCThreads=%d" % max(2, min(8, workers))
     if heap:
         jo += " -Xmx%s" % heap
-    env["JAVA_TOOL_OPTIONS"] = (env.get("JAVA_TOOL_OPTIONS", "") + " " + jo + " -Xss256m").strip()
+    # TLC unpacks its standard modules into java.io.tmpdir on every run: keep that inside the run's scratch directory
+    jtmp = os.path.join(cwd, "jtmp")
+    os.makedirs(jtmp, exist_ok=True)
+    env["JAVA_TOOL_OPTIONS"] = (env.get("JAVA_TOOL_OPTIONS", "") + " " + jo + " -Xss256m -Djava.io.tmpdir=" + jtmp).strip()
     meta = os.path.join(cwd, "meta-%s-%d" % (cfg.replace(".cfg", ""), int(time.time() * 1000) % 1000000))
     cmd = ["timeout", str(timeout), "tlc", "-workers", str(workers), "-metadir", meta, "-config", cfg] + list(extra) + [module]
     p = subprocess.run(cmd, cwd=cwd, env=env, stdout=subprocess.PIPE, stderr=subprocess.STDOUT, text=True, errors="replace")
